@@ -1763,6 +1763,62 @@ class C09(Prop):
             body = f'{atom} O {len(ops)} ' + ' '.join(ops) + ' I ' + inputs_all(maxlen, alpha)
             for fl in ('v', 't'):
                 lines.append(f'PR {fl}x{i}p rich str parse 80 {body}')
+        # recursive expression grammars `recursive(|e| atom.pratt(ops))` (model: XEnv / runX): parenthesised sub-expressions
+        # in the atom, the expression again inside operator parsers (call arguments as a postfix operator, a ternary as an
+        # infix operator). Inputs: all short strings, plus generated well-formed expressions and one-token mutations of them.
+        nrec = 40 if tier == 'quick' else 400
+        for n in range(nrec):
+            nops = rng.randint(1, 5)
+            ops, shapes = [], []
+            for _ in range(nops):
+                kind = rng.choice(['infixl', 'infixr', 'prefix', 'postfix'])
+                bp = rng.randint(1, 4)
+                sym = rng.choice(syms)
+                ops.append(f'{kind} {bp} just 1 {sym}')
+                shapes.append((kind, [sym], None))
+            r = rng.random()
+            if r < 0.35:
+                ops.append(f'postfix {rng.randint(1, 4)} delim call 0 just 1 40 just 1 41')       # f(e)
+                shapes.append(('postfix', [40], [41]))
+            elif r < 0.6:
+                ops.append(f'infixr {rng.randint(1, 4)} delim call 0 just 1 63 just 1 58')        # c ? e : e
+                shapes.append(('infixr', [63], [58]))
+            atom = 'or oneof 2 120 121 delim call 0 just 1 40 just 1 41'
+
+            def gen(d):
+                if d <= 0 or rng.random() < 0.3:
+                    return [rng.choice([120, 121])]
+                c = rng.random()
+                if c < 0.2:
+                    return [40] + gen(d - 1) + [41]
+                k, o, cl = rng.choice(shapes)
+                mid = o if cl is None else o + gen(d - 1) + cl
+                if k == 'prefix':
+                    return mid + gen(d - 1)
+                if k == 'postfix':
+                    return gen(d - 1) + mid
+                return gen(d - 1) + mid + gen(d - 1)
+            ins = []
+            pool = [120, 121, 40, 41, 63, 58] + syms
+            for _ in range(30 if tier == 'quick' else 60):
+                e = gen(rng.randint(1, 4))[:24]
+                ins.append(e)
+                if e and rng.random() < 0.6:
+                    m = list(e)
+                    j = rng.randrange(len(m))
+                    c = rng.random()
+                    if c < 0.4:
+                        del m[j]
+                    elif c < 0.7:
+                        m.insert(j, rng.choice(pool))
+                    else:
+                        m[j] = rng.choice(pool)
+                    ins.append(m)
+            lits = ' '.join(f'lit {len(e)} ' + ' '.join(map(str, e)) for e in ins)
+            body = f'X A {atom} O {len(ops)} ' + ' '.join(ops) + ' I ' + inputs_all(3, [120, 40, 41] + syms[:2]) + ' ' + lits
+            fl = 'v' if n % 2 == 0 else 't'
+            for mode in ('parse', 'check'):
+                lines.append(f'PR {fl}r{n}{mode[0]} rich str {mode} 120 {body}'.replace('  ', ' '))
         return lines
 
     def custom_run(self, lines, tier, seed, jobs):
